@@ -99,6 +99,13 @@ pub enum Op {
     /// some other public method of the container is called and its result ignored: ranking,
     /// validity, sorted copy, suit shift … — what users do between the calls C19 is about
     Env { r: u8, which: u8 },
+    /// the caller stops looking: the next `n` operations are not followed by the read sweep of
+    /// every register, so mutations follow one another with no read of any kind in between
+    /// (the sweep that follows the last of them judges them all)
+    Quiet { n: u8 },
+    /// one slot of one register is read through one path (0 accessor, 1 to_arr, 2 iter) and
+    /// judged: a single look, instead of the sweep that reads everything in a fixed order
+    Peek { r: u8, k: u8, path: u8 },
 }
 
 pub const K_NEW: usize = 0;
@@ -112,7 +119,9 @@ pub const K_SORT: usize = 7;
 pub const K_CLONE: usize = 8;
 pub const K_CLONE_FROM: usize = 9;
 pub const K_ENV: usize = 10;
-const KINDS: [&str; 11] = ["New", "NewDefault", "Set", "Compose6", "Compose7", "Select", "CopyOut", "SortInPlace", "CloneOut", "CloneFrom", "Env"];
+pub const K_QUIET: usize = 11;
+pub const K_PEEK: usize = 12;
+const KINDS: [&str; 13] = ["New", "NewDefault", "Set", "Compose6", "Compose7", "Select", "CopyOut", "SortInPlace", "CloneOut", "CloneFrom", "Env", "Quiet", "Peek"];
 
 // ---- probes ---------------------------------------------------------------
 
@@ -163,7 +172,12 @@ const P_CLONE_FROM_PERMUTATION: usize = 93;
 const P_ENV: usize = 94;
 const P_ENV_PANICKED: usize = 95;
 const P_ENV_RANKING: usize = 96;
-const NPROBES: usize = 97;
+const P_QUIET_STEP: usize = 97;
+const P_PEEK: usize = 98;
+const P_SET_UNREAD_OVERWRITE: usize = 99;
+const P_SET_STALE_LAST_READ: usize = 100;
+const P_QUIET_RUN_2PLUS: usize = 101;
+const NPROBES: usize = 102;
 
 fn probe_names() -> Vec<String> {
     let mut v = vec![String::new(); NPROBES];
@@ -216,6 +230,11 @@ fn probe_names() -> Vec<String> {
     v[P_ENV] = "environment_call_other_public_method".into();
     v[P_ENV_PANICKED] = "environment_call_panicked_and_was_ignored".into();
     v[P_ENV_RANKING] = "environment_call_ranking_of_a_five_six_or_seven".into();
+    v[P_QUIET_STEP] = "operation_not_followed_by_any_read".into();
+    v[P_PEEK] = "single_slot_read_through_one_path".into();
+    v[P_SET_UNREAD_OVERWRITE] = "setter_on_register_replaced_wholesale_and_not_read_since".into();
+    v[P_SET_STALE_LAST_READ] = "setter_writes_the_word_last_read_from_that_slot_which_no_longer_holds_it".into();
+    v[P_QUIET_RUN_2PLUS] = "two_or_more_mutations_in_a_row_with_no_read_between".into();
     v[P_CLONE] = "clone_out".into();
     v[P_CLONE_FROM] = "clone_from_same_size".into();
     v[P_CLONE_FROM_PERMUTATION] = "clone_from_where_destination_holds_a_permutation_of_the_source".into();
@@ -227,8 +246,8 @@ fn probe_names() -> Vec<String> {
     v
 }
 
-// cell = (op kind 11) x (size 6) x (slot 7) x (mask of slots overwritten before, 128)
-const CELL_BITS: usize = 11 * 6 * 7 * 128;
+// cell = (op kind 13) x (size 6) x (slot 7) x (mask of slots overwritten before, 128)
+const CELL_BITS: usize = 13 * 6 * 7 * 128;
 #[inline]
 fn cell(kind: usize, n: usize, slot: usize, mask: u8) -> usize {
     ((kind * 6 + (n - 2)) * 7 + slot) * 128 + mask as usize
@@ -342,6 +361,51 @@ pub fn reg_accessors(reg: &Reg) -> ([u32; 8], usize) {
         }
     };
     (b, n)
+}
+
+/// One positional accessor, and nothing else, on the register in place.
+pub fn reg_accessor(reg: &Reg, k: usize) -> u32 {
+    match reg {
+        Reg::Two(h) => match k {
+            0 => h.first(),
+            _ => h.second(),
+        },
+        Reg::Three(h) => match k {
+            0 => h.first(),
+            1 => h.second(),
+            _ => h.third(),
+        },
+        Reg::Four(h) => match k {
+            0 => h.first(),
+            1 => h.second(),
+            2 => h.third(),
+            _ => h.forth(),
+        },
+        Reg::Five(h) => match k {
+            0 => h.first(),
+            1 => h.second(),
+            2 => h.third(),
+            3 => h.forth(),
+            _ => h.fifth(),
+        },
+        Reg::Six(h) => match k {
+            0 => h.first(),
+            1 => h.second(),
+            2 => h.third(),
+            3 => h.forth(),
+            4 => h.fifth(),
+            _ => h.sixth(),
+        },
+        Reg::Seven(h) => match k {
+            0 => h.first(),
+            1 => h.second(),
+            2 => h.third(),
+            3 => h.forth(),
+            4 => h.fifth(),
+            5 => h.sixth(),
+            _ => h.seventh(),
+        },
+    }
 }
 
 pub fn reg_set(reg: &mut Reg, k: usize, w: u32) {
@@ -606,6 +670,14 @@ impl C19 {
         let mut prev_kind: Option<usize> = None;
         let mut kinds_used: u64 = 0;
         let detail = obs.detail;
+        // read sweeps still to be left out; registers named since the last sweep; mutations since then
+        let mut quiet_left: u32 = 0;
+        let mut pending: u8 = 0;
+        let mut unread_mutations: u32 = 0;
+        // what the caller last saw in each slot (by sweep or by a single look), and whether the
+        // register has been replaced wholesale since anybody read it
+        let mut last_seen: [[Option<u32>; 7]; NREGS] = [[None; 7]; NREGS];
+        let mut unread_overwrite: [bool; NREGS] = [false; NREGS];
 
         for (step, op) in ops.iter().enumerate() {
             let kind = Self::op_kind(op);
@@ -723,6 +795,12 @@ impl C19 {
                         }
                         if was_src[r] {
                             obs.hit(P_MUTATE_COMPOSE_SRC);
+                        }
+                        if unread_overwrite[r] {
+                            obs.hit(P_SET_UNREAD_OVERWRITE);
+                        }
+                        if last_seen[r][k] == Some(*w) && old != *w {
+                            obs.hit(P_SET_STALE_LAST_READ);
                         }
                         reg_set(regs[r].as_mut().unwrap(), k, *w);
                         model[r].w[k] = *w;
@@ -1010,6 +1088,50 @@ impl C19 {
                         obs.hit(P_NOOP);
                     }
                 }
+                Op::Quiet { n } => {
+                    // as the last operation it has nothing to silence, and the final sweep stays
+                    if step + 1 < ops.len() {
+                        quiet_left = (*n as u32).clamp(1, 8);
+                        h = fold(h, quiet_left as u64);
+                        if obs.tracing() {
+                            obs.log(format!("#{} the next {} operations are not followed by a read", step, quiet_left));
+                        }
+                        continue;
+                    }
+                }
+                Op::Peek { r, k, path } => {
+                    let (r, k, path) = (*r as usize % NREGS, *k as usize, *path as usize % 3);
+                    let n = model[r].n as usize;
+                    if regs[r].is_none() || k >= n {
+                        obs.hit(P_NOOP);
+                    } else {
+                        at(step, kind, SIZE_NAMES[n]);
+                        obs.hit(P_PEEK);
+                        let reg = regs[r].as_ref().unwrap();
+                        let got = match path {
+                            0 => reg_accessor(reg, k),
+                            1 => reg_to_arr(reg).0[k],
+                            _ => reg_iter(reg).0[k],
+                        };
+                        let want = model[r].w[k];
+                        h = fold(h, (r as u64) << 16 | (k as u64) << 8 | path as u64);
+                        h = fold(h, got as u64);
+                        if obs.tracing() {
+                            obs.log(format!("#{} r{}({}) slot {} read by {} -> {:#010x}", step, r, SIZE_NAMES[n], k, ["its accessor", "to_arr()", "iter()"][path], got));
+                        }
+                        if got != want {
+                            let inv = ["I2-accessor", "I1-to_arr", "I3-iter"][path];
+                            let mut d = format!("at step {} a single read of register {} ({}) slot {} by {} returned {:#010x}, model slot {} = {:#010x}; model = {}", step, r, SIZE_NAMES[n], k, ["its accessor", "to_arr()", "iter()"][path], got, k, want, words_str(model[r].slice()));
+                            if detail {
+                                d.push_str("; ");
+                                d.push_str(&provenance(&writes, got));
+                            }
+                            return Self::fail(h, step, inv, kind, SIZE_NAMES[n], d, nontrivial, obs);
+                        }
+                        last_seen[r][k] = Some(got);
+                        unread_overwrite[r] = false;
+                    }
+                }
                 Op::SortInPlace { r } => {
                     let r = *r as usize % NREGS;
                     if let Some(mut tmp) = regs[r] {
@@ -1046,14 +1168,35 @@ impl C19 {
                 }
             }
 
-            // every live register, through every read path, after every step
+            // every live register, through every read path, after every step — unless the caller
+            // is not looking (Op::Quiet); the last step is always followed by the sweep
+            if let Some(t) = touched {
+                pending |= 1 << t;
+                if !matches!(op, Op::Peek { .. } | Op::Env { .. }) {
+                    unread_mutations += 1;
+                    if unread_mutations >= 2 {
+                        obs.hit(P_QUIET_RUN_2PLUS);
+                    }
+                    if !matches!(op, Op::Set { .. }) {
+                        unread_overwrite[t] = true;
+                    }
+                }
+            }
+            if quiet_left > 0 {
+                quiet_left -= 1;
+                if step + 1 < ops.len() {
+                    obs.hit(P_QUIET_STEP);
+                    continue;
+                }
+            }
+            unread_mutations = 0;
             for r in 0..NREGS {
                 if let Some(reg) = regs[r].as_ref() {
                     let n = model[r].n as usize;
                     at(step, kind, SIZE_NAMES[n]);
                     obs.inv_checks += 1;
                     if let Some((inv, msg, word)) = check_reg(reg, &model[r], step % 2 == 1) {
-                        let frame = touched != Some(r);
+                        let frame = pending & (1 << r) == 0;
                         let inv_id = if frame { "frame" } else { inv };
                         let mut d = format!("after step {} ({}), register {} ({}): {}", step, KINDS[kind], r, SIZE_NAMES[n], msg);
                         if frame {
@@ -1069,11 +1212,16 @@ impl C19 {
                     for x in &a[..an] {
                         h = fold(h, *x as u64);
                     }
-                    if obs.tracing() && touched == Some(r) {
+                    if obs.tracing() && pending & (1 << r) != 0 {
                         obs.log(format!("     r{} reads back {}", r, words_str(&a[..an])));
                     }
+                    for k in 0..an.min(7) {
+                        last_seen[r][k] = Some(a[k]);
+                    }
+                    unread_overwrite[r] = false;
                 }
             }
+            pending = 0;
         }
 
         // shape of the final world: sizes of live registers + kinds used
@@ -1256,6 +1404,70 @@ impl<'a> Gen<'a> {
         self.shadow[dst] = M::of(&words[..n]);
         Op::New { dst: dst as u8, n: n as u8, via, words }
     }
+}
+
+/// Rewrites a history as told by a caller who does not read everything back after every call:
+/// `Quiet` stretches, single looks, and — the shapes a "skip the redundant store" shortcut or a
+/// remembered read would get wrong — a register replaced unseen and then given back a word it was
+/// last seen holding, and a slot written and restored unseen.
+fn unobserved(ops: Vec<Op>, rng: &mut Rng) -> Vec<Op> {
+    let mut out: Vec<Op> = Vec::with_capacity(ops.len() * 2);
+    // what constructors and setters alone say a register holds: a rough memory of earlier
+    // contents (the executor's model stays the only authority)
+    let mut seen: [Option<(u8, [u32; 7])>; NREGS] = [None; NREGS];
+    for op in ops {
+        match rng.below(6) {
+            0 => out.push(Op::Quiet { n: 1 + rng.below(4) as u8 }),
+            1 => out.push(Op::Peek { r: rng.below(NREGS as u64) as u8, k: rng.below(7) as u8, path: rng.below(3) as u8 }),
+            _ => {}
+        }
+        let mut after: Option<Op> = None;
+        match &op {
+            Op::New { dst, n, words, .. } => {
+                let d = *dst as usize % NREGS;
+                if let Some((on, ow)) = seen[d] {
+                    if rng.chance(1, 2) {
+                        let k = rng.usize_below(on.min(*n).max(1) as usize);
+                        if rng.chance(1, 2) {
+                            out.push(Op::Peek { r: d as u8, k: k as u8, path: rng.below(3) as u8 });
+                        }
+                        out.push(Op::Quiet { n: 2 });
+                        after = Some(Op::Set { r: d as u8, k: k as u8, w: ow[k] });
+                    }
+                }
+                seen[d] = Some((*n, *words));
+                if let Some(Op::Set { k, w, .. }) = &after {
+                    if let Some((_, ws)) = seen[d].as_mut() {
+                        ws[*k as usize] = *w;
+                    }
+                }
+            }
+            Op::Set { r, k, w } => {
+                let ri = *r as usize % NREGS;
+                if let Some((n, ws)) = seen[ri].as_mut() {
+                    if (*k as usize) < *n as usize {
+                        let old = ws[*k as usize];
+                        if rng.chance(1, 4) {
+                            out.push(Op::Quiet { n: 2 });
+                            after = Some(Op::Set { r: *r, k: *k, w: old });
+                        } else {
+                            ws[*k as usize] = *w;
+                        }
+                    }
+                }
+            }
+            Op::NewDefault { dst, .. } | Op::Compose6 { dst, .. } | Op::Compose7 { dst, .. } | Op::Select { dst, .. } | Op::CopyOut { dst, .. } | Op::CloneOut { dst, .. } | Op::CloneFrom { dst, .. } => {
+                seen[*dst as usize % NREGS] = None;
+            }
+            Op::SortInPlace { r } => seen[*r as usize % NREGS] = None,
+            Op::Env { .. } | Op::Quiet { .. } | Op::Peek { .. } => {}
+        }
+        out.push(op);
+        if let Some(a) = after {
+            out.push(a);
+        }
+    }
+    out
 }
 
 impl World for C19 {
@@ -1481,6 +1693,12 @@ impl World for C19 {
                 }
             };
             ops.push(op);
+        }
+        // one history in four is then told by a caller who does not look after every call
+        // (drawn after the history itself, so the other three quarters are what they always were)
+        let Gen { rng, .. } = g;
+        if rng.chance(1, 4) {
+            ops = unobserved(ops, rng);
         }
         ops
     }
@@ -1904,6 +2122,51 @@ impl World for C19 {
                 ],
             ));
         }
+        // the caller does not look between mutations: what a read leaves behind (or what a
+        // missing read fails to refresh) must not matter to the next write. For every size and
+        // slot: replace the whole register unseen and write back the word last seen there; write
+        // and restore unseen; two different slots unseen; a single look through each read path
+        // first; the same across two registers; replacement by copy, clone_from and selection.
+        for n in 2u8..=7 {
+            let a = tagged(1);
+            let b = tagged(2);
+            for k in 0..n {
+                let j = (k + 1) % n;
+                let mut ops = vec![Op::New { dst: 0, n, via: VIA_ARR, words: a }];
+                ops.extend([Op::Quiet { n: 2 }, Op::New { dst: 0, n, via: VIA_ARR, words: b }, Op::Set { r: 0, k, w: a[k as usize] }]);
+                ops.extend([Op::Quiet { n: 2 }, Op::Set { r: 0, k, w: tag(30, k as u32) }, Op::Set { r: 0, k, w: a[k as usize] }]);
+                ops.extend([Op::Quiet { n: 2 }, Op::Set { r: 0, k, w: tag(31, k as u32) }, Op::Set { r: 0, k: j, w: tag(32, j as u32) }]);
+                ops.extend([Op::Quiet { n: 3 }, Op::Set { r: 0, k, w: tag(33, k as u32) }, Op::Set { r: 0, k: j, w: tag(33, k as u32) }, Op::Set { r: 0, k, w: tag(34, k as u32) }]);
+                out.push((format!("unseen mutations {} slot {}", SIZE_NAMES[n as usize], k), ops));
+                for path in 0..3u8 {
+                    let mut ops = vec![Op::New { dst: 0, n, via: VIA_ARR, words: a }, Op::New { dst: 1, n, via: VIA_ARR, words: b }];
+                    // look at one slot only, replace the register, write the seen word back
+                    ops.extend([Op::Quiet { n: 3 }, Op::Peek { r: 0, k, path }, Op::New { dst: 0, n, via: VIA_ARR, words: b }, Op::Set { r: 0, k, w: a[k as usize] }]);
+                    // look at one register, write what was seen into the same slot of the other
+                    ops.extend([Op::Quiet { n: 2 }, Op::Peek { r: 0, k, path }, Op::Set { r: 1, k, w: a[k as usize] }]);
+                    // look, write something else, look again, restore, all without a sweep
+                    ops.extend([Op::Quiet { n: 4 }, Op::Peek { r: 1, k: j, path }, Op::Set { r: 1, k: j, w: tag(40, j as u32) }, Op::Peek { r: 1, k: j, path }, Op::Set { r: 1, k: j, w: b[j as usize] }]);
+                    // replacement by copy / clone_from instead of a constructor
+                    ops.extend([Op::Quiet { n: 3 }, Op::Peek { r: 1, k, path }, Op::CopyOut { dst: 1, src: 0 }, Op::Set { r: 1, k, w: a[k as usize] }]);
+                    ops.extend([Op::New { dst: 2, n, via: VIA_ARR, words: tagged(3) }, Op::Quiet { n: 3 }, Op::Peek { r: 2, k, path }, Op::CloneFrom { dst: 2, src: 0 }, Op::Set { r: 2, k, w: tag(3, k as u32) }]);
+                    out.push((format!("single look then unseen mutations {} slot {} path {}", SIZE_NAMES[n as usize], k, path), ops));
+                }
+            }
+        }
+        for n in [6u8, 7] {
+            // a five selected twice into the same register with no read between, then written
+            let a = tagged(1);
+            let mut ops = vec![Op::New { dst: 0, n, via: VIA_ARR, words: a }];
+            for k in 0..5u8 {
+                ops.extend([
+                    Op::Select { dst: 1, src: 0, idx: [0, 1, 2, 3, 4] },
+                    Op::Quiet { n: 2 },
+                    Op::Select { dst: 1, src: 0, idx: [n - 1, n - 2, 3, 2, 1] },
+                    Op::Set { r: 1, k, w: a[k as usize] },
+                ]);
+            }
+            out.push((format!("unseen reselection from {}", SIZE_NAMES[n as usize]), ops));
+        }
         out
     }
 
@@ -2001,6 +2264,8 @@ impl World for C19 {
             Op::CloneOut { .. } => K_CLONE,
             Op::CloneFrom { .. } => K_CLONE_FROM,
             Op::Env { .. } => K_ENV,
+            Op::Quiet { .. } => K_QUIET,
+            Op::Peek { .. } => K_PEEK,
         }
     }
 
@@ -2023,6 +2288,8 @@ impl World for C19 {
             Op::CloneOut { dst, src } => J::obj().with("op", J::str("CloneOut")).with("dst", u(*dst)).with("src", u(*src)),
             Op::CloneFrom { dst, src } => J::obj().with("op", J::str("CloneFrom")).with("dst", u(*dst)).with("src", u(*src)),
             Op::Env { r, which } => J::obj().with("op", J::str("Env")).with("r", u(*r)).with("which", u(*which)),
+            Op::Quiet { n } => J::obj().with("op", J::str("Quiet")).with("n", u(*n)),
+            Op::Peek { r, k, path } => J::obj().with("op", J::str("Peek")).with("r", u(*r)).with("slot", u(*k)).with("path", J::str(["accessor", "to_arr", "iter"][(*path as usize) % 3])),
         }
     }
 
@@ -2066,6 +2333,15 @@ impl World for C19 {
             "CloneOut" => Ok(Op::CloneOut { dst: u8f("dst")?, src: u8f("src")? }),
             "CloneFrom" => Ok(Op::CloneFrom { dst: u8f("dst")?, src: u8f("src")? }),
             "Env" => Ok(Op::Env { r: u8f("r")?, which: u8f("which")? }),
+            "Quiet" => Ok(Op::Quiet { n: u8f("n")? }),
+            "Peek" => {
+                let path = match j.get("path").and_then(|x| x.as_str()).unwrap_or("accessor") {
+                    "to_arr" => 1,
+                    "iter" => 2,
+                    _ => 0,
+                };
+                Ok(Op::Peek { r: u8f("r")?, k: u8f("slot")?, path })
+            }
             other => Err(format!("unknown op {}", other)),
         }
     }
@@ -2132,6 +2408,16 @@ impl World for C19 {
                     out.push(Op::Env { r: *r, which: 0 });
                 }
             }
+            Op::Quiet { n } => {
+                if *n > 1 {
+                    out.push(Op::Quiet { n: *n - 1 });
+                }
+            }
+            Op::Peek { r, k, path } => {
+                if *path % 3 != 0 {
+                    out.push(Op::Peek { r: *r, k: *k, path: 0 });
+                }
+            }
         }
         out
     }
@@ -2169,6 +2455,7 @@ impl World for C19 {
                         "I4 Three's public field equals the model",
                         "I5 on every live Six/Seven, three standing selections (identity and reversed tuple by method syntax, a scrambled tuple through Permutator::five_from_permutation; opposite order on odd and even steps) return the model's words at their indexes",
                         "frame: every register not named by the operation still satisfies I1-I4 against its unchanged model",
+                        "unobserved stretches: in one seeded history in four and in the directed scenarios the read sweep is left out after up to eight consecutive operations (Quiet), and single slots are read through a single path (Peek, judged at once); the sweep after the stretch judges everything done in it, so mutations follow one another with no read, or with exactly one chosen read, in between",
                     ]
                     .iter()
                     .map(|s| J::str(s))
